@@ -543,7 +543,13 @@ def _merge_dict_into_dict(
           keys_to_delete.append(key)
 
   # NOTE(daiyip): Merge keys from src dict to dest dict.
-  for key, value in src.items():
+  # Keys present in both are visited in the order of `dest` (so that the order
+  # of the `merge_fn` calls does not depend on how `src` was written), then the
+  # keys that only `src` has, in its order.
+  src_keys = [k for k in dest.keys() if k in src]
+  src_keys.extend(k for k in src.keys() if k not in dest)
+  for key in src_keys:
+    value = src[key]
     is_new = key not in dest
     if is_new or MISSING_VALUE == dest[key]:
       # Key exists in src but not dest (or dest[key] is MISSING_VALUE).
